@@ -306,8 +306,8 @@ func c10Counts(tier string) (g3, g4 int64, depth, special int64) {
 
 func init() {
 	Register(&Prop{
-		ID:   "C10",
-		Rule: "include graphs on up to 4 files written to disk (file i starts with i*12 comment lines so a line number names its file): ALL 512 graphs on 3 files and (thorough) ALL 65536 graphs on 4 files x 3 directive orders (6000 sampled in quick), self-loops, k-cycles and diamonds included; plus dangling targets, path spellings (relative, ./, absolute, ~/, glob matching exactly one file), a glob directive matching every sibling, sub-directories, depth limits 1..5 on chains and an oversized file. Fresh loader per case. Oracle: a document-order DFS with an ancestor stack computes the reachable set, the back edges (with and without re-traversal of loaded files: either flagged set is accepted, every flagged directive must be a true back edge), the missing targets; Files/FileOrder/errors and their directive lines are compared; server level: every load-error diagnostic under an open document's URI lies on one of that document's include lines. Non-trivial = graph with >=2 reachable files; distinct by graph/spelling hash.",
+		ID:    "C10",
+		Rule:  "include graphs on up to 4 files written to disk (file i starts with i*12 comment lines so a line number names its file): ALL 512 graphs on 3 files and (thorough) ALL 65536 graphs on 4 files x 3 directive orders (6000 sampled in quick), self-loops, k-cycles and diamonds included; plus dangling targets, path spellings (relative, ./, absolute, ~/, glob matching exactly one file), a glob directive matching every sibling, sub-directories, depth limits 1..5 on chains and an oversized file. Fresh loader per case. Oracle: a document-order DFS with an ancestor stack computes the reachable set, the back edges (with and without re-traversal of loaded files: either flagged set is accepted, every flagged directive must be a true back edge), the missing targets; Files/FileOrder/errors and their directive lines are compared; server level: every load-error diagnostic under an open document's URI lies on one of that document's include lines. Non-trivial = graph with >=2 reachable files; distinct by graph/spelling hash.",
 		Notes: []string{"depth: a file at include depth k (root 0) must load if k < limit and must be reported if k > limit; k = limit is accepted either way", "depth and size limits are exercised on chains / single oversized files only, where the depth of a file is unambiguous"},
 		Cases: func(tier string) int64 {
 			a, b, c, d := c10Counts(tier)
